@@ -33,13 +33,13 @@ def main(run: Run) -> int:
                             jobs.append({"fn": "history", "globals": {"STEPS": 3, "MAXSIZE": 0, "NS": 2, "EDIT_SET": (0, 2, 7, 10), "FIX": (o1, s1, o2, s2, o3)}, "timeout": 900, "bound": "3 steps (edits 0,2,7,10) + final parse"})
     for a in range(9):
         jobs.append({"fn": "eviction", "globals": {"MAXSIZE": 2, "FIXA": a // 3, "FIXB": a % 3}, "timeout": 600, "bound": "cache scaled down to maxsize=2, 3 distinct strings, 4 calls, edits {none, replace, delete} at depth 1/0: hits, misses and evictions"})
-    feats = lambda r, rep: {"part": r["fn"], "leak_through_shared_children": True}  # noqa: E731
+    feats = lambda r, rep: {"part": r["fn"], "leak_through_shared_children": "returned" in (rep.get("what") or ""), "keyword_call": "keyword call" in (rep.get("what") or ""), "IndexError": "IndexError" in (rep.get("what") or "")}  # noqa: E731
     jobs.sort(key=lambda j: (j["fn"] != "eviction", -j["timeout"]))
     for r, j in zip(xh.run_jobs(run, "vf.harness.cache_harness", jobs), jobs):
         xh.default_verdict(run, r, feats, bound=j["bound"])
     if thorough:
         real_size_run(run)
-    run.bounds["histories"] = "calls: parse_condition_expression_to_tree, parse_ahb_expression_to_..., parse_expression_including_unresolved_subexpressions with default flags and without any expansion followed by a deep edit of its result (things a caller does); strings: 2 per parser incl. a nested time condition; edits: replace/delete/append child, rebind data, rebind children at depth 0 and 1"
+    run.bounds["histories"] = "calls: parse_condition_expression_to_tree, parse_ahb_expression_to_..., parse_expression_including_unresolved_subexpressions with default flags and without any expansion followed by a deep edit of its result (things a caller does); strings: 2 per parser incl. a nested time condition, the second one always passed by keyword; edits: replace/delete/append child, rebind data, rebind children at depth 0 and 1"
     common_assumptions(run)
     run.assume("functools.lru_cache is reached through a proxy that calls the real C wrapper untraced (CrossHair would otherwise bypass every lru_cache); eviction is explored on the same real tree_copy and raw function composed with lru_cache(maxsize=2)")
     run.outside += ["histories longer than the stated number of steps", "the real maxsize=1024 is exercised by one concrete run in the thorough tier only"]
